@@ -44,7 +44,9 @@ def run_forked(func, case, timeout=120):
     rfd, wfd = os.pipe()
     sys.stdout.flush()
     sys.stderr.flush()
-    pid = os.fork()
+    with warnings.catch_warnings():
+        warnings.simplefilter('ignore')
+        pid = os.fork()
     if pid == 0:
         os.close(rfd)
         try:
